@@ -41,6 +41,9 @@ type zvC13Uni struct {
 	// Sessions: "" = session 0 plain eBGP, session 1 route-reflector client; "roles" = session 0 eBGP route server client,
 	// session 1 eBGP customer, both with RFC 9234 roles negotiated (the export adds OTC)
 	Sessions string `json:"sessions,omitempty"`
+	// Import: "" = the Adj-RIB-In accepts everything unchanged; "prepend" = its import policy prepends to the AS path, so
+	// that the paths the Loc-RIB stores have been through BGPPath.Prepend once already (slices with history)
+	Import string `json:"import_policy,omitempty"`
 }
 
 type zvC13Op struct {
@@ -180,7 +183,11 @@ func zvC13NewPipe(u zvC13Uni, has [2]bool) *zvC13Pipe {
 	v := vrf.NewUntrackedVRF("zv", 0)
 	v.AddContributingASN(65000)
 	pp := &zvC13Pipe{u: u, has: has, rib: locRIB.New("inet.0")}
-	pp.in = adjRIBIn.New(filter.NewAcceptAllFilterChain(), v, sa)
+	imp := filter.NewAcceptAllFilterChain()
+	if u.Import == "prepend" {
+		imp = filter.Chain{filter.NewFilter("IMPORT_PREPEND", []*filter.Term{filter.NewTerm("t", nil, []actions.Action{actions.NewASPathPrependAction(65105, 1), actions.NewAcceptAction()})})}
+	}
+	pp.in = adjRIBIn.New(imp, v, sa)
 	pp.in.Register(pp.rib)
 	return pp
 }
@@ -451,18 +458,26 @@ func zvC13Universes(thorough bool) []zvC13Uni {
 	for _, src := range []string{"ibgp", "ebgp"} {
 		for _, ch := range []string{"rewrite", "filter"} {
 			if thorough {
-				us = append(us, zvC13Uni{src, ch, 3, 3, ""})
+				us = append(us, zvC13Uni{src, ch, 3, 3, "", ""})
 			} else {
-				us = append(us, zvC13Uni{src, ch, 3, 2, ""}, zvC13Uni{src, ch, 2, 3, ""})
+				us = append(us, zvC13Uni{src, ch, 3, 2, "", ""}, zvC13Uni{src, ch, 2, 3, "", ""})
 			}
+		}
+	}
+	// paths that were prepended to on import (stored slices with a history), exported to sessions that prepend again
+	for _, src := range []string{"ibgp", "ebgp"} {
+		if thorough {
+			us = append(us, zvC13Uni{src, "rewrite", 3, 3, "", "prepend"})
+		} else {
+			us = append(us, zvC13Uni{src, "rewrite", 2, 3, "", "prepend"})
 		}
 	}
 	// sessions whose export adds the OTC attribute (RFC 9234 roles negotiated): a route server client (no other rewrite) and a customer
 	for _, src := range []string{"ibgp", "ebgp"} {
 		if thorough {
-			us = append(us, zvC13Uni{src, "rewrite", 3, 3, "roles"}, zvC13Uni{src, "filter", 3, 3, "roles"})
+			us = append(us, zvC13Uni{src, "rewrite", 3, 3, "roles", ""}, zvC13Uni{src, "filter", 3, 3, "roles", ""})
 		} else {
-			us = append(us, zvC13Uni{src, "rewrite", 2, 3, "roles"})
+			us = append(us, zvC13Uni{src, "rewrite", 2, 3, "roles", ""})
 		}
 	}
 	return us
